@@ -138,8 +138,11 @@ def _build(d):
         else:
             a = str(d.int(1, 400) / 8.0)
             b = str(d.int(-40, 40) / 4.0)
+        # 'np': the base is the RESULT of functions (a numpy scalar inside
+        # the library) instead of a literal: (ABS(a)*SIGN(a)) = a
         return {'fn': fn, 'args': [a, b],
-                'mode': 'formula' if fn == 'CARET' else mode}
+                'mode': 'formula' if fn == 'CARET' else mode,
+                'np': d.pick(3) == 0}
     if fn == 'LOG':
         if d.chance(1, 3):
             return {'fn': fn, 'args': [x], 'mode': mode}
@@ -343,7 +346,11 @@ def judge(case):
             r = repr(v)
             return '(' + r + ')' if r.startswith('-') and fn == 'CARET' \
                 else r
-        if fn == 'CARET':
+        if fn in ('CARET', 'POWER') and case.get('np'):
+            base = '(ABS(%r)*SIGN(%r))' % (nums[0], nums[0])
+            note = ('=%s^%s' % (base, L(nums[1])) if fn == 'CARET'
+                    else '=POWER(%s,%r)' % (base, nums[1]))
+        elif fn == 'CARET':
             note = '=%s^%s' % (L(nums[0]), L(nums[1]))
         else:
             note = '=%s(%s)' % (fn, ','.join(repr(v) for v in nums))
